@@ -4,6 +4,7 @@ from rules import v1model
 from spec import classify, tables
 
 LEVEL = 'other'
+FIXTURES = ['F3']
 
 
 def run(ctx, R):
